@@ -20,7 +20,9 @@ fn ref_signable(info_hash: &[u8; 20], t: u64) -> [u8; 28] {
 }
 
 //@ ob: C02.O2
-//@ tier: quick
+//@ rss: 35.2
+//@ time: 843
+//@ tier: thorough
 //@ cap: 2400
 //@ mem: 40
 //@ desc: SignedAnnounce::from_dht_response(info_hash, k, t, sig) = Ok iff the oracle said valid for exactly (k, info_hash || t as 8 big-endian bytes, sig); key, timestamp and signature are copied; the wall clock plays no role (any timestamp, any clock)
@@ -55,7 +57,7 @@ fn c02_o2_signed_announce_response() {
 }
 
 //@ ob: C03.O4p
-//@ tier: quick
+//@ tier: thorough
 //@ cap: 1200
 //@ also: C02
 //@ desc: SignedAnnounce::from_dht_request = Ok iff the oracle said valid for (k, info_hash || t, sig) AND |now_us - t| <= 45 000 000 (both full u64, no overflow)
@@ -90,7 +92,7 @@ fn c03_o4p_signed_announce_request() {
 }
 
 //@ ob: C02.O2b
-//@ tier: quick
+//@ tier: thorough
 //@ cap: 900
 //@ also: C03 C05
 //@ desc: malformed key lengths are rejected without panic and without any verification (key length in {0, 31, 33}) on both the request and the response path
@@ -119,7 +121,7 @@ fn c02_o2b_signed_announce_key_lengths() {
 }
 
 //@ ob: C02.O2c
-//@ tier: quick
+//@ tier: thorough
 //@ cap: 900
 //@ also: C03 C05
 //@ desc: malformed signature lengths are rejected without panic and without any verification (signature length in {0, 63, 65}) with a well-formed key, on both the request and the response path
